@@ -18,13 +18,15 @@ CONSTANTS MaxPred, MaxBl, MaxLine,   \* registry bounds
           MaxTests,                  \* finished tests
           Dists,                     \* distances a predicate evaluation can report (subset of Dist)
           Shapes,                    \* subset of {"own", "nested", "seq"}
-          Diam                       \* CFG diameter used for predicate owning code objects
+          Diam,                      \* CFG diameter used for predicate owning code objects
+          LinePred, LineBl           \* registries with lines: at most this many predicates / branch-less objects
 
 VARIABLES reg, cur, prev, last, merged, ntests
 vars == <<reg, cur, prev, last, merged, ntests>>
 
 Registries == UNION {{MkReg(x[1], x[2], x[3], sh, Diam) : sh \in ShapesFor(x[1], Shapes)} :
-                        x \in (0..MaxPred) \X (0..MaxBl) \X (0..MaxLine)}
+                        x \in {y \in (0..MaxPred) \X (0..MaxBl) \X (0..MaxLine) :
+                                 y[3] = 0 \/ (y[1] <= LinePred /\ y[2] <= LineBl)}}
 
 Init == /\ reg \in Registries
         /\ cur = EmptyTrace(reg) /\ prev = EmptyTrace(reg) /\ last = EmptyTrace(reg)
@@ -61,11 +63,12 @@ TypeOK == RegOK(reg) /\ ntests \in 0..MaxTests
 TracesWF == WF(cur, reg) /\ WF(prev, reg) /\ WF(last, reg) /\ WF(merged, reg)
 MergedIsFold == merged = Merge(prev, last)
 
-(* C10 *)
-FitnessFiniteNonNeg == FitnessFiniteNonNegLaw(cur, reg) /\ FitnessFiniteNonNegLaw(merged, reg)
-CoverageIn01 == CoverageIn01Law(cur, reg) /\ CoverageIn01Law(merged, reg)
-FitnessZeroIffCovered == FitnessZeroIffCoveredLaw(cur, reg) /\ FitnessZeroIffCoveredLaw(merged, reg)
-SuiteZeroIffCoverageOne == SuiteZeroIffCoverageOneLaw(cur, reg) /\ SuiteZeroIffCoverageOneLaw(merged, reg)
+(* C10: on the running test's trace and (once a test was merged) on the suite's trace *)
+OnTraces(Law(_, _)) == Law(cur, reg) /\ (ntests > 0 => Law(merged, reg))
+FitnessFiniteNonNeg == OnTraces(FitnessFiniteNonNegLaw)
+CoverageIn01 == OnTraces(CoverageIn01Law)
+FitnessZeroIffCovered == OnTraces(FitnessZeroIffCoveredLaw)
+SuiteZeroIffCoverageOne == OnTraces(SuiteZeroIffCoverageOneLaw)
 
 (* C11 *)
 AddTestMonotone == AddTestMonotoneLaw(merged, cur, reg) /\ AddTestMonotoneLaw(prev, last, reg)
